@@ -42,6 +42,9 @@ VERIF_FAIL_PATTERNS = [
     r"cannot show .* is in bounds",
     r"value may be out of range",
     r"unable to prove post-condition of closure",
+    r"precondition not met",
+    r"may be out of bounds",
+    r"failed to prove",
     r"unable to prove assertion",
     r"cannot prove",
 ]
